@@ -75,6 +75,16 @@ end tasks
 section admm
 variable {ν : Type}
 
+/-- the ADMM sweep of the source, re-extracted from the AST on every run: X, then Z, then U; the
+stopping rule is consulted only for `iteration > 0`; the function returns `x`. -/
+theorem constants_tie_admm : Constants.admmUpdateOrder = [1, 2, 3] ∧ Constants.admmCheckAfter = 0 ∧
+    Constants.admmReturns = 1 := ⟨rfl, rfl, rfl⟩
+
+/-- the sweep translated from the source is the sweep C02 describes (X, then Z from the new X, then U
+from the new X and Z). -/
+theorem sweep_translated_eq_spec (ux uz uu : Admm ν → ν) (s : Admm ν) :
+    sweep ux uz uu s = sweepSpec ux uz uu s := rfl
+
 /-- C02: at least one and at most `maxIter` sweeps. -/
 theorem admm_iterations_bounds (step : Admm ν → Admm ν) (stop : Admm ν → ν → Bool)
     (rescale : Admm ν → ν → Admm ν) (maxIter : Nat) (hm : 1 ≤ maxIter) (zero : ν) :
